@@ -6,13 +6,14 @@ import random
 from vf.core.result import Res
 from vf.gen.ir import E, source, walk
 from vf.gen.programs import Gen, stress_program
+from vf.ref import mapping as rm
 from vf.progcheck import Accept, Reject, Unspec, blocks_equal, conservation, model_of, nodetap, run_ir
 
 LEVEL = "exploration"
 RULE = (
     "one case per generated program, weighted towards position moves (*=/@= to ROM and RAM, ROM<->ROM, back), blocks ending before/at/after a "
     "bank end, empty blocks, under LoROM, HiROM and .map configurations (incl. a HiROM system-area window), plus a directed family of pure "
-    "*=/@=/data sequences; each accepted program is judged by (1) the producer/consumer conservation checker over the T-node emit log vs "
+    "*=/@=/data sequences and one of .incbin files whose paths flatten to the same symbol name; each accepted program is judged by (1) the producer/consumer conservation checker over the T-node emit log vs "
     "the write_block calls (exactly-once, in order, block offset = mapped offset of the address after the *=) and (2) the reference "
     "assembler's predicted block sequence (a block opened by *= to RAM must continue at the current output position); distinct by hash of the source; non-trivial = accepted with at least one non-empty block"
 )
@@ -29,7 +30,30 @@ def plan(tier: str, seed: int) -> list[dict]:
     return [{"seed": seed * 100_000 + i, "n": per} for i in range(n)]
 
 
+def collision(rng: random.Random) -> dict:
+    """Binary files whose paths flatten to the same symbol name (gfx/font.bin, gfx_font.bin, gfx.font.bin): the name is ambiguous
+    (a816 logs it) and nothing here mentions it; every .incbin statement still stands for the bytes of the file it names."""
+    rom = rng.choice(["low", "high"])
+    stem = rng.choice(["gfx", "d", "assets"])
+    names = rng.sample([f"{stem}/font.bin", f"{stem}_font.bin", f"{stem}.font.bin", f"{stem}/font_bin", f"{stem}_font/bin"], rng.randint(2, 4))
+    files = {n: rng.randbytes(rng.choice([1, 2, 5, 32, 300])) for n in names}
+    addr = rng.choice([0x008000, 0x018123, 0x028000]) if rom == "low" else rng.choice([0xC00000, 0xC12345])
+    body: list = [{"k": "org", "e": E(addr)}]
+    want = b""
+    for n in names + ([rng.choice(names)] if rng.random() < 0.3 else []):
+        if rng.random() < 0.5:
+            v = rng.randrange(256)
+            body.append({"k": "data", "d": "db", "es": [E(v)]})
+            want += bytes([v])
+        body.append({"k": "incbin", "f": n})
+        want += files[n]
+    off = rm.offset(rm.lorom() if rom == "low" else rm.hirom(), addr)
+    return {"prog": body, "files": files, "tables": {}, "rom": rom, "family": "directed:incbin-name-collision", "expect": [[off, want.hex()]]}
+
+
 def directed(rng: random.Random) -> dict:
+    if rng.random() < 0.12:
+        return collision(rng)
     rom = rng.choice(["low", "high", "map"])
     g = Gen(rng, rom=rom)
     body: list = []
@@ -86,6 +110,12 @@ def check_program(res: Res, p: dict) -> None:
         return
     if stats["emit_events"] == 0:
         res.count("tap_saw_nothing")
+    if p.get("expect"):
+        res.count("directly_judged")
+        d = blocks_equal([(o, bytes.fromhex(h)) for o, h in p["expect"]], r.blocks)
+        if d:
+            res.violate("wrong-offset" if "file offset" in d else "blocks-differ", f"statement-by-statement expectation: {d}", wit)
+            return
     if isinstance(m, Accept):
         res.count("model_judged")
         res.count("model_blocks_offset_unjudged", sum(1 for o, _ in m.blocks if o is None))
